@@ -309,3 +309,43 @@ def check_code_part(g, rep, key, rule="code_part"):
            "%s() hands on exactly the code of a line: quoted texts and comments (trailing ;, //, /* */ and their combinations) are left out, an unclosed /* is code (%d sample lines)" % (rule, len(CODE_SAMPLES)) if not bad else
            "%s() on `%s` hands on `%s`, the code of the line is `%s`; %d of %d sample lines differ" % (rule, _show(bad[0][0]), bad[0][2], bad[0][1], len(bad), len(CODE_SAMPLES)),
            detail={"lines": bad[:5]})
+
+
+# ------------------------------------------------------------------------------------------------ what a macro body keeps of a line
+# pieces: "keep" = what an expansion must still hold (code, quoted texts, block comments - `;` and `//` inside them are no comment start),
+#         "cut"  = the trailing `;` or `//` comment
+TEXT_SAMPLES = [
+    [("keep", "ldi r16, 1+(2)")],
+    [("keep", "ldi r16, 1 "), ("cut", "; load")],
+    [("keep", "ldi r16, 1 "), ("cut", "// load ; twice")],
+    [("keep", ".db \"a;b\", 1 "), ("cut", "; text")],
+    [("keep", ".db \"a//b\", 1")],
+    [("keep", ".db ';', 2 "), ("cut", "// semicolon")],
+    [("keep", ".db '\"', 3 "), ("cut", "; quote \"")],
+    [("keep", "ldi r16, 4 /* first value; low half */")],
+    [("keep", "ldi r16, 5 /* see http://example.org */")],
+    [("keep", "ldi r16, 6 /* a; b */ "), ("cut", "; c")],
+    [("keep", "ldi r16, 7 /* a */ /* b // c */ "), ("cut", "// d")],
+    [("keep", "nop /* not closed ; still code")],
+    [("keep", "add r16, @0 /* ; */ "), ("cut", ";")],
+    [("cut", "; only a comment")],
+    [("cut", "// only a comment")],
+    [("keep", "")],
+]
+
+
+def check_code_text(g, rep, key, rule="code_text"):
+    """What a macro body keeps of its lines before they are copied into every expansion: everything in front of the trailing `;` or `//`
+    comment, and nothing less - a `;` or `//` inside a quoted text or inside /* */ starts no comment (cutting there leaves an unclosed
+    string or comment behind, and the line no longer parses, or parses as something else)."""
+    bad = []
+    for pieces in TEXT_SAMPLES:
+        line = "".join(t for k, t in pieces)
+        want = "".join(t for k, t in pieces if k == "keep")
+        got = code_text(g, line, rule)
+        if got is None or got != want:
+            bad.append((line, want, got))
+    rep.ob(key, not bad,
+           "%s() keeps a line up to its trailing ; or // comment; quoted texts and /* */ comments are stepped over whole (%d sample lines)" % (rule, len(TEXT_SAMPLES)) if not bad else
+           "%s() on `%s` keeps `%s`, the line without its trailing comment is `%s`; %d of %d sample lines differ" % (rule, _show(bad[0][0]), bad[0][2], bad[0][1], len(bad), len(TEXT_SAMPLES)),
+           detail={"lines": bad[:5]})
